@@ -19,12 +19,15 @@ EXHAUSTIVE = {'quick': True, 'thorough': True}
 NOTES = ['both tiers: binary_derivative and cyclic_binary_derivative on ALL 2047 binary strings of length 0..10 (exact); '
          'bien, tbien, ktbien on ALL 2044 binary strings of length 2..10 (through the enclosure)',
          'the thorough tier is also complete for lengths 11 and 12 (6144 more strings, all five functions)',
+         'bien at length 1025, the longest string on which the code returns (OverflowError from 1026), is pinned in both tiers; '
+         'periodic strings of period 2, 4, 8 and length 11..64 for all three functions',
          'beyond that sampled: lengths 11..300 for bien (incl. 65, 66, 100, 128, 129, 200, 300: weights 2^k beyond a machine word), tbien, ktbien and the derivatives (uniform, sparse, '
          'periodic, constant, alternating strings); the thorough tier takes 16 times more of them',
          'the [0,1] bound and the invariances are theorems about the real-valued definitions; every double is shown to be '
          'within 2^-30 of that real; additionally 0.0 <= v <= 1.0 and the partner equalities (1e-12) are TESTED on every '
          'double seen']
 ASSUMPTIONS = ['inputs are str objects over the alphabet {0,1}; length >= 2 for bien/tbien/ktbien (below that the code divides by zero)',
+               'bien: n <= 1025 in the correspondence (the code overflows beyond; documented range <= 32)',
                'the comparison of doubles is by enclosure with tolerance 2^-30, not bit for bit']
 TRUSTED = ['float.hex() parsing in harness/props/c18.py (double -> integer mantissa, exponent)',
            'Interval 4.6.1 (verified interval arithmetic, FloatIntervalFull over pure-Z radix-2 floats) and Flocq 4.1.0']
@@ -113,6 +116,24 @@ def generate(rng, tier):
             heavy.append({'kind': 'bien/random_len65..300', 'op': 'bien', 's': s})
     for _ in range(6 * scale):
         heavy.append({'kind': 'bien/random_len65..300', 'op': 'bien', 's': rand_string(rng, rng.randint(65, 300))})
+    # the largest length at which bien still returns (2**1024 no longer converts to float): one pinned case
+    # (about 48 s of interval evaluation: the logarithm table stops at 301)
+    heavy.append({'kind': 'bien/len1025_pinned', 'op': 'bien', 's': ''.join(rng.choice('01') for _ in range(1025))})
+    if tier == 'thorough':
+        heavy.append({'kind': 'bien/len1025_pinned', 'op': 'bien', 's': rand_string(rng, 1025)})
+        heavy.append({'kind': 'bien/len600..1024', 'op': 'bien', 's': rand_string(rng, rng.randint(600, 1024))})
+    # periodic strings (period 2, 4, 8): their derivative chains reach the zero string early, so most terms of the
+    # mean are 0 while the normaliser still has to count every weight
+    pers = ['01', '10', '0011', '0110', '0001', '0111', '0101', '00001111', '00110011', '01010101', '00010001',
+            '01101001', '00000001', '01111111']
+    lens = [12, 16, 24, 32, 48, 64] if tier == 'quick' else [11, 12, 13, 16, 20, 24, 30, 32, 40, 48, 56, 63, 64]
+    for per in pers:
+        for n in lens:
+            if tier == 'quick' and rng.random() < 0.5:
+                continue
+            s = (per * (n // len(per) + 1))[:n]
+            for f in FNS:
+                light.append({'kind': '%s/periodic_len11..64' % f, 'op': f, 's': s})
     for f in ('tbien', 'ktbien'):
         for _ in range(24 * scale):
             n = rng.choice([11, 33, 64, 65, 100, 128, 255, 256, 257, 299, 300,
@@ -233,3 +254,27 @@ def shrink(c):
     if len(s) >= 4:
         yield dict(c, s=s[:len(s) // 2], _sh=depth + 1)
         yield dict(c, s=s[len(s) // 2:], _sh=depth + 1)
+
+
+# ------------------------------------------------------------------ source tie (appended; harness/translate.py)
+# pre(): regenerate coq/gen/GenFuns.v from the Python source of the tree under test and, if it changed, re-prove
+# GenProps/GenFunsEquivC18.v, GenProps/C18Src.v and Properties/C18.v (theorem C18_source_tie) by hand.
+# extra_checks(): report a failed translation / equivalence proof (theorem names, translator or coqc error).
+from harness import translate as _translate
+_prev_pre = globals().get('pre')
+_prev_extra_checks = globals().get('extra_checks')
+TRUSTED = list(globals().get('TRUSTED', [])) + [_translate.TRUSTED_NOTE]
+NOTES = list(globals().get('NOTES', [])) + [
+    'coq/gen/GenFuns.v is regenerated from the Python source at the start of every run; theorem C18_source_tie proves '
+    'the regenerated definitions equal to the hand-written model for all inputs']
+
+
+def pre(ctx):
+    if _prev_pre is not None:
+        _prev_pre(ctx)
+    _translate.pre_hook(ctx, 'C18')
+
+
+def extra_checks(ctx):
+    out = list(_prev_extra_checks(ctx)) if _prev_extra_checks is not None else []
+    return out + _translate.extra_hook(ctx, 'C18')
